@@ -498,6 +498,70 @@ static void scen_prefs() {
   rmdir(dir);
 }
 
+// ---- two threads in FilePreferenceSaverThread::Synchronize() at the same time
+static void *pf2_helper(void *p) {
+  static_cast<ola::FilePreferenceSaverThread*>(p)->Synchronize();
+  return NULL;
+}
+static void scen_prefs2() {
+  ola::thread::Mutex own;
+  own.Lock();
+  {
+    ola::FilePreferenceSaverThread saver;
+    saver.Start();
+    pthread_t h;
+    pthread_create(&h, NULL, pf2_helper, &saver);
+    saver.Synchronize();
+    pthread_join(h, NULL);
+    saver.Join();
+  }
+  own.Unlock();
+}
+// ---- Start() immediately followed by Join()
+static void scen_prefsj() {
+  ola::thread::Mutex own;
+  own.Lock();
+  {
+    ola::FilePreferenceSaverThread saver;
+    saver.Start();
+    saver.Join();
+  }
+  own.Unlock();
+}
+// ---- SelectServer::Run() / Terminate() / Run() again
+static ola::io::SelectServer *tm_ss = NULL;
+static void *tm_p1(void *) {
+  tm_ss->Execute(ola::NewSingleCallback(record, sch::self->id, 2));
+  tm_ss->Terminate();
+  tm_ss->Execute(ola::NewSingleCallback(record, sch::self->id, 3));
+  tm_ss->Execute(ola::NewSingleCallback(record, sch::self->id, 4));
+  return NULL;
+}
+static void *tm_p2(void *) {
+  tm_ss->Execute(ola::NewSingleCallback(record, sch::self->id, 2));
+  tm_ss->Terminate();
+  return NULL;
+}
+static pthread_t tm_t[2];
+static void tm_start(int which) {
+  record(0, 0);
+  pthread_create(&tm_t[which], NULL, which == 0 ? tm_p1 : tm_p2, NULL);
+}
+static void scen_term() {
+  ola::io::SelectServer::Options opt;
+  opt.force_select = true;
+  ola::io::SelectServer ss(opt);
+  tm_ss = &ss;
+  sch::g_ss = &ss;
+  ss.Execute(ola::NewSingleCallback(tm_start, 0));
+  ss.Run();
+  pthread_join(tm_t[0], NULL);
+  ss.Execute(ola::NewSingleCallback(tm_start, 1));
+  ss.Run();
+  pthread_join(tm_t[1], NULL);
+  sch::g_ss = NULL;
+}
+
 // ---- ThreadPool with two workers
 static void scen_pool(int n) {
   ola::thread::ThreadPool pool(2);
@@ -607,6 +671,9 @@ static void child(const std::vector<std::string> &a) {
   else if (a[0] == "pool") scen_pool(atoi(a[1].c_str()));
   else if (a[0] == "locker") scen_locker();
   else if (a[0] == "prefs") scen_prefs();
+  else if (a[0] == "prefs2") scen_prefs2();
+  else if (a[0] == "prefsj") scen_prefsj();
+  else if (a[0] == "term") scen_term();
   else if (a[0] == "ssd") { ss_drainer = true; scen_ss(ints(a[1]), ints(a[2]), atoi(a[3].c_str())); }
   else if (a[0] == "execre") scen_execre(ints(a[1]), ints(a[2]));
   else if (a[0] == "ss") scen_ss(ints(a[1]), ints(a[2]), atoi(a[3].c_str()));
@@ -622,7 +689,8 @@ static std::string handle(const std::string &p) {
       !(a[0] == "futcopy" && a.size() == 3) && !(a[0] == "ss" && a.size() == 5) &&
       !(a[0] == "execre" && a.size() == 4) && !(a[0] == "periodic" && a.size() == 2) &&
       !(a[0] == "pool" && a.size() == 3) && !(a[0] == "locker" && a.size() == 2) &&
-      !(a[0] == "prefs" && a.size() == 2) && !(a[0] == "ssd" && a.size() == 5))
+      !(a[0] == "prefs" && a.size() == 2) && !(a[0] == "prefs2" && a.size() == 2) &&
+      !(a[0] == "prefsj" && a.size() == 2) && !(a[0] == "term" && a.size() == 2) && !(a[0] == "ssd" && a.size() == 5))
     return "bad-op";
   int fds[2];
   if (pipe(fds)) return "end=pipe-failed";
